@@ -5,6 +5,7 @@ import ast
 
 from ..const import NameRef, module_const
 from ..core import AnalysisError, calls_in, call_name, const_str, dotted, unparse, walk_no_nested
+from ..match import packed_bytes, want_le_bytes
 from ..match import Field, eq_const_test, field_of, if_chain, inline, pack_call, returns_of, single_assignments
 from ..report import Ctx
 from ..terms import NODES, Term, node_class_terms
@@ -59,23 +60,11 @@ def r1_field_packing(ctx: Ctx) -> None:
             continue
         rets = [r.value for r in returns_of(em.node) if r.value is not None]
         expr = inline(rets[0], single_assignments(em.node))
-        pc = pack_call(expr)
-        if pc is None:
-            raise AnalysisError(f"{em.where}: not a struct.pack")
-        fmt, args = pc
-        ctx.check(fmt.little, construct + ":endianness", f"format {fmt.text!r} must be little-endian")
-        if len(args) != len(fmt.fields):
-            ctx.fail(construct + ":arity", f"{len(args)} values for format {fmt.text!r}")
-            continue
-        off = 0
-        for (code, nbytes), a in zip(fmt.fields, args):
-            f = field_of(a)
-            want = Field("self.value_node.get_value()", 8 * off, (1 << (8 * nbytes)) - 1)
-            if f is None:
-                raise AnalysisError(f"{em.where}: component `{unparse(a)}` not in shift/mask form")
-            ctx.check(code in "BHIL" and f == want, f"{construct}:field@{off}",
-                      f"packs {f} as {code!r}; truncation to the field (two's complement for negatives) needs {want} unsigned")
-            off += nbytes
+        got = packed_bytes(expr)
+        want = want_le_bytes("self.value_node.get_value()", width)
+        for j, (g, w) in enumerate(zip(got, want)):
+            ok = (g.source, g.bit) == (w.source, w.bit) and not g.signed and not g.checked
+            ctx.check(ok, f"{construct}:byte{j}", f"emits {g}; truncation to the field (two's complement for negatives), little-endian, needs {w} masked")
     ctx.floor("data_classes", 4)
 
 
